@@ -32,6 +32,8 @@ TypeTableShapes == <<
 NamingShapes == <<
   Single("n.camel", Fld("FooBar", 1, "string")),
   Single("n.snake", Fld("foo_bar", 1, "string")),
+  \* lower_snake names with one-letter words: snake_case(UpperCamel(name)) is NOT the name again
+  With("n.snake.letters", <<Msg("Root", <<Fld("a_b", 1, "string"), Rep(Fld("x_y_z", 2, "int32")), Fld("max_t_t_l", 3, "int64")>>, <<>>)>>, BaseCfg),
   Single("n.json.empty", Json(Fld("Str", 1, "string"), "")),
   Single("n.json.dash", Json(Fld("Str", 1, "string"), "-")),
   Single("n.json.dashomit", Json(Fld("Str", 1, "string"), "-,omitempty")),
@@ -102,17 +104,25 @@ FlagShapesQuick == <<
                                                                     [k |-> "Root.Sub", v |-> <<Inj("extra", "bool", FALSE, FALSE, TRUE)>>],
                                                                     [k |-> "Root.Subs", v |-> <<Inj("idx", "int64", FALSE, TRUE, TRUE)>>]>>]) >>
 
+\* custom-type fields get the same flags, validators and plan modifiers (through the user's GenSchema hook)
+CustomFlagShapes == <<
+  Shape("c10.custom", Desc(<<Msg("Root", <<Commented(Fld("Cust", 1, "string"), Com2), Fld("Str", 2, "string"), Rep(Fld("Custs", 3, "bool"))>>, <<>>)>>),
+        [BaseCfg EXCEPT !.customtypes = <<[k |-> "Root.Cust", v |-> "CustC"], [k |-> "Root.Custs", v |-> "CustL"]>>,
+                        !.computed = <<"Root.Cust">>, !.sensitive = <<"Root.Custs">>, !.required = <<"Root.Custs">>, !.usfu = TRUE,
+                        !.validators = <<[k |-> "Root.Cust", v |-> <<"1", "2">>]>>, !.planmodifiers = <<[k |-> "Root.Custs", v |-> <<"3">>]>>]) >>
+
 \* thorough: the full product of the flag key sets
 FlagShapesFull ==
   LET combos == SetToSeq({<<r, c, s, u>> : r \in DOMAIN FlagKeySets, c \in DOMAIN FlagKeySets, s \in DOMAIN FlagKeySets, u \in BOOLEAN})
   IN [i \in DOMAIN combos |-> Shape("c10.full." \o ToString(i), FlagDesc(Com1), FlagCfg(combos[i][1], combos[i][2], combos[i][3], combos[i][4]))]
 
-GenFlagShapes(long) == CommentShapes \o FlagShapesQuick \o (IF long THEN FlagShapesFull ELSE <<>>)
+GenFlagShapes(long) == CommentShapes \o FlagShapesQuick \o CustomFlagShapes \o (IF long THEN FlagShapesFull ELSE <<>>)
 
 ---------------------------------------------------------------------------
 \* C12: only the selected types, independent of the rest of the request
 
-SelRoot == Msg("Root", <<Fld("Str", 1, "string"), MsgF("Sub", 2, "Leaf")>>, <<>>)
+\* "Leaf Leaf = 3": the usual gogo style of naming a field after its type, the type being selected as well
+SelRoot == Msg("Root", <<Fld("Str", 1, "string"), MsgF("Sub", 2, "Leaf"), MsgF("Leaf", 3, "Leaf")>>, <<>>)
 SelOther == Msg("Other", <<Fld("Num", 1, "int32"), Rep(Fld("Items", 2, "string")), InOneof(Fld("BranchA", 3, "string"), "Grp"), InOneof(MsgF("BranchB", 4, "Leaf"), "Grp")>>, <<"Grp">>)
 SelThird == Msg("Third", <<Fld("Flag", 1, "bool"), MapOf(MsgF("Dict", 2, "Leaf"))>>, <<>>)
 SelExtra == Msg("Extra", <<Fld("Raw", 1, "bytes"), MsgF("Sub", 2, "Leaf")>>, <<>>)
@@ -120,8 +130,9 @@ SelMsgs == <<Leaf, SelRoot, SelOther, SelThird>>
 SelNames == <<"Leaf", "Root", "Other", "Third">>
 SelDep == [pkg |-> "depx", msgs |-> <<Msg("Poison", <<Fld("Str", 1, "string")>>, <<>>), Msg("Bad", <<Fld("Num", 1, "int64")>>, <<>>)>>]
 
+\* "rev": the same messages declared in the opposite order (a type declared after the message that uses it)
 SelDesc(ext) == [pkg |-> "tp",
-                 msgs |-> IF ext = "msg" THEN SelMsgs \o <<SelExtra>> ELSE SelMsgs,
+                 msgs |-> IF ext = "msg" THEN SelMsgs \o <<SelExtra>> ELSE IF ext = "rev" THEN Reverse(SelMsgs) ELSE SelMsgs,
                  deps |-> IF ext = "dep" THEN <<SelDep>> ELSE <<>>]
 
 NonEmptySubsets(S) == (SUBSET S) \ {{}}
@@ -141,8 +152,8 @@ SelShapesOf(sort, exts) ==
   IN FlattenSeq([i \in DOMAIN runs |-> perRun(i)])
 
 GenSelectShapes(long) ==
-  IF long THEN SelShapesOf(FALSE, {"none", "msg", "dep"}) \o SelShapesOf(TRUE, {"none", "msg", "dep"})
-  ELSE SelShapesOf(FALSE, {"none", "dep"}) \o SelShapesOf(TRUE, {"msg"})
+  IF long THEN SelShapesOf(FALSE, {"none", "msg", "dep", "rev"}) \o SelShapesOf(TRUE, {"none", "msg", "dep", "rev"})
+  ELSE SelShapesOf(FALSE, {"none", "dep", "rev"}) \o SelShapesOf(TRUE, {"msg", "rev"})
 
 ---------------------------------------------------------------------------
 \* C18: a selected type is generated whole or not at all
@@ -337,10 +348,22 @@ AddrCfg(opt, key) ==
     [] opt = "validators" -> [BaseCfg EXCEPT !.validators = <<[k |-> key, v |-> <<"1", "2">>]>>]
     [] OTHER -> [BaseCfg EXCEPT !.planmodifiers = <<[k |-> key, v |-> <<"3">>]>>]
 
+\* two selected root types reaching the same message through the same field name: an option keyed by the full
+\* path below one root must not reach (or be lost for) the other
+TwoRoots == Desc(<<AddrLeaf, Msg("Root", <<MsgF("Sub", 1, "Leaf"), Fld("Zed", 2, "string")>>, <<>>),
+                   Msg("Other", <<MsgF("Sub", 1, "Leaf"), Fld("Flag", 2, "bool")>>, <<>>)>>)
+TwoRootKeys == <<"Root.Sub.Str", "Other.Sub.Str", "Other.Sub.Num", "Leaf.Num">>
+GenAddrTwoRoots ==
+  FlattenSeq([o \in DOMAIN AddrOptions |-> FlattenSeq([k \in DOMAIN TwoRootKeys |->
+    LET run == "c11.two." \o AddrOptions[o] \o "." \o ToString(k)
+        cfg == [AddrCfg(AddrOptions[o], TwoRootKeys[k]) EXCEPT !.types = <<"Root", "Other">>]
+    IN <<[Shape(run \o ".Root", TwoRoots, cfg) EXCEPT !.run = run], [Shape(run \o ".Other", TwoRoots, cfg) EXCEPT !.run = run, !.root = "Other"]>>])])
+
 GenAddrShapes ==
   <<Shape("c11.base", AddrDesc, BaseCfg)>>
   \o FlattenSeq([o \in DOMAIN AddrOptions |-> [k \in DOMAIN AddrKeys |->
         Shape("c11." \o AddrOptions[o] \o "." \o ToString(k), AddrDesc, AddrCfg(AddrOptions[o], AddrKeys[k]))]])
+  \o GenAddrTwoRoots
 
 \* exclusion is surgical: the excluded variant behaves like the base on everything else (paired)
 ExclKeys == <<"Root.Sub.Str", "Leaf.Str", "Root.Subs.Num", "Root.Dict.Str", "Root.Mid.Sub.Num", "Mid.Sub", "Root.Zed", "Outer.Kind", "Root.Sub2">>
